@@ -421,7 +421,9 @@ pub fn run(ctx: &Ctx, report: &mut Report) -> EvidenceMeta {
         let mut v = Vec::new();
         for codec in [crate::codec::CodecKind::Postcard, crate::codec::CodecKind::Bincode] {
             for max_packet in 4..=ctx.tier.pick(160u32, 400u32) {
-                v.push(crate::props::c07::SweepCase { codec, max_packet, members: 40, updates: 40, item_sizes: vec![3, 9, 1], max_tx: 2 });
+                for spread in [false, true] {
+                    v.push(crate::props::c07::SweepCase { codec, max_packet, members: 40, updates: 40, item_sizes: vec![3, 9, 1], max_tx: 2, spread });
+                }
             }
         }
         v
@@ -429,7 +431,7 @@ pub fn run(ctx: &Ctx, report: &mut Report) -> EvidenceMeta {
     ctx.run_enum("foca-on-serde-codecs-packet-sweep", sweep.len() as u64, |i| sweep[i as usize].clone(), crate::props::c07::exec_sweep, report, false);
     EvidenceMeta {
         level: "exploration",
-        rule: "proptest values for PostcardCodec and BincodeCodec with standard() / legacy() (no decode limit) and the same with_limit::<65536>(), identity types u64, (u16,u16), SocketAddr (v4/v6) and a serde struct holding a String (0..300 bytes incl. multi-byte UTF-8); every Message variant, incarnations and probe numbers at 0, 1, MAX and random. Per value (header and member): decode(encode(v)) == v and exactly the produced bytes are consumed with 0..64 trailing bytes behind; encoding into every buffer size 0..len-1 (both &mut [u8] and Limit<Vec<u8>> as Foca uses) is an error, never a panic, and the exact size works; decoding every truncation, bit-flipped encodings and random bytes returns a value or an error without panic and never leaves more bytes than it was given; a value decoded from hostile bytes re-encodes to a fixed point. The combination unlimited bincode config x String-carrying identity x hostile bytes is excluded from generation (counted) because of the listed finding: it aborts the process and is only exercised through its committed replay in a child process. Plus Foca itself on the two serde codecs with the packet size swept byte by byte so that Feeds and update lists are cut mid-member (C07's oracle). Non-trivial: a value with a variable-length identity and trailing data; distinct = (codec config, message variant, string size class, trailing size class)."
+        rule: "proptest values for PostcardCodec and BincodeCodec with standard() / legacy() (no decode limit) and the same with_limit::<65536>(), identity types u64, (u16,u16), SocketAddr (v4/v6) and a serde struct holding a String (0..300 bytes incl. multi-byte UTF-8); every Message variant, incarnations and probe numbers at 0, 1, MAX and random. Per value (header and member): decode(encode(v)) == v and exactly the produced bytes are consumed with 0..64 trailing bytes behind; encoding into every buffer size 0..len-1 (both &mut [u8] and Limit<Vec<u8>> as Foca uses) is an error, never a panic, and the exact size works; decoding every truncation, bit-flipped encodings and random bytes returns a value or an error without panic and never leaves more bytes than it was given; a value decoded from hostile bytes re-encodes to a fixed point. The combination unlimited bincode config x String-carrying identity x hostile bytes is excluded from generation (counted) because of the listed finding: it aborts the process and is only exercised through its committed replay in a child process. Plus Foca itself on the two serde codecs with the packet size swept byte by byte so that Feeds and update lists are cut mid-member (C07's oracle), once with uniform members and once with addresses / generations / incarnations spread over 1-, 2- and 3-byte varints so that members have different encoded sizes and fail to fit at different fields. Non-trivial: a value with a variable-length identity and trailing data; distinct = (codec config, message variant, string size class, trailing size class)."
             .into(),
         assumptions: vec!["serde derive output of the identity types is trusted; allocation failure inside bincode is the listed known finding, isolated in a child process".into()],
     }
